@@ -512,6 +512,8 @@ class Interp:
             else:
                 if l.key == r.key:
                     return [(p, not neg)]
+                if self._is_enum_const(l.key) and self._is_enum_const(r.key):
+                    return [(p, neg)]          # two distinct members of the repository's enums are never equal/identical
                 a, b = (l.key, r.key) if r.kind == 'const' or l.key <= r.key else (r.key, l.key)
                 if r.kind != 'const' and l.kind != 'const' and self._is_enum_const(r.key) is False and self._is_enum_const(l.key):
                     a, b = r.key, l.key
